@@ -37,6 +37,7 @@ pub fn apply_patch_memory(old_data: &[u8], patch_data: &[u8]) -> ZbsdiffResult<V
     // Parse header
     let header = ZbsdiffHeader::read_options(&mut cursor, binrw::Endian::Little, ())?;
     header.validate()?;
+    header.check_patch_len(patch_data.len())?;
 
     // Read compressed blocks based on header sizes
     let mut control_compressed = vec![0u8; header.control_size as usize];
@@ -190,6 +191,7 @@ impl<R: Read + Seek> ZbsdiffPatcher<R> {
         // Parse header
         let header = ZbsdiffHeader::read_options(&mut cursor, binrw::Endian::Little, ())?;
         header.validate()?;
+        header.check_patch_len(patch_data.len())?;
 
         // Read compressed blocks
         let mut control_compressed = vec![0u8; header.control_size as usize];
